@@ -1029,6 +1029,18 @@ theorem solveLoopX_spec (eps : Rat) : ∀ (fuel : Nat) (st : SolveStX Rat), SxIn
     · exact ih _ hb.1
     · exact hb
 
+/-- the loop the driver runs is the modelled loop when the re-tabulation is the identity -/
+theorem solveLoopXWith_id (eps : Rat) (fuel : Nat) (st : SolveStX Rat) :
+    solveLoopXWith id eps fuel st = solveLoopX eps fuel st := by
+  induction fuel generalizing st with
+  | zero => rfl
+  | succ fuel ih =>
+    unfold solveLoopXWith solveLoopX
+    dsimp only [id]
+    split_ifs
+    · exact ih _
+    · rfl
+
 /-- **every state reached by `QpSolver<QpMcSimplexDecomp>::solve`** satisfies the tables, gradient and simplex
 invariants — for every accuracy, iteration limit, shrinking on or off, from any state that satisfies them -/
 theorem sxInv_solveX (s : McSx Rat) (h : SxInv s) (eps : Rat) (maxIter : Nat) : SxInv (solveX s eps maxIter).s :=
